@@ -228,6 +228,8 @@ def demand(m, c, rtype, av, bv):
             core.die("spec/python disagree on %r ** %r" % (pa, pb))
     if st == "exc":
         return ("exc", p), src
+    if type(p) is int and p.bit_length() > 12000:
+        return None          # beyond the int <-> str conversion limit of the driver
     return ("enc", L.res_enc(p)), src
 
 
@@ -373,7 +375,9 @@ def run(tier, seed):
         specs.append(core.BuildSpec("c07val_%s" % ("T" if cpow else "F"),
                                     "# cython: language_level=3, cpow=%s\n\n%s" % (cpow, L.value_source(vcases))))
     fut_build = ex.submit(core.build_many, specs, workdir, 4)
+    timing = {"tlc_small_and_codegen_s": round(time.time() - t0, 1)}
     tl_int = fut_int.result()
+    timing["tlc_intpow_done_s"] = round(time.time() - t0, 1)
     if not tl_int.ok:
         import sys
         sys.stderr.write(tl_int.out[-4000:])
@@ -404,6 +408,7 @@ def run(tier, seed):
     n_validated = validate_model(m, rep, doc)
 
     builds = {b.name: b for b in fut_build.result()}
+    timing["builds_done_s"] = round(time.time() - t0, 1)
     ex.shutdown()
     failed = [b for b in builds.values() if not b.ok]
     if failed:
@@ -473,6 +478,8 @@ def run(tier, seed):
     with concurrent.futures.ThreadPoolExecutor(max_workers=2) as ex2:
         obs = dict(zip((False, True), ex2.map(run_mod, (False, True))))
 
+    timing["calls_done_s"] = round(time.time() - t0, 1)
+    cov["timing"] = timing
     n_calls = n_spec = n_bad = 0
     nontriv = set()
     passing = []
@@ -499,7 +506,7 @@ def run(tier, seed):
         if want[0] == "int":
             bad = ("int", want[1] + 1)
         elif want[0] == "float" and want[1] == want[1] and want[1] not in (math.inf, -math.inf):
-            bad = ("float", -want[1] if want[1] == 0 else want[1] * 2 + 1)
+            bad = ("float", -want[1] if want[1] == 0 else want[1] * 2 + 3)
         elif want[0] == "exc":
             bad = ("exc", "KeyError")
         else:
